@@ -15,6 +15,7 @@ type Palette struct {
 	Reqs    []*Req
 	Queries []*Query
 	RPCs    []*RPC
+	Groups  []*Group
 	Descs   []string
 	Anns    []string
 }
@@ -64,6 +65,13 @@ func DefaultPalette() *Palette {
 		RPCs: []*RPC{
 			{Path: "/rpc", Methods: []RPCMethod{{Name: "foo", Ann: "the foo", Desc: "d", Params: sArr, Result: Obj(P("ok", Bool("true")))}}},
 			{Path: "/a", Methods: []RPCMethod{{Name: "bar", Params: sObjA}, {Name: "baz", Tags: []string{"@cats"}, Result: sObjA}}},
+		},
+		Groups: []*Group{
+			{Path: "/g", Tags: []string{"@cats"}, Methods: []*HTTP{
+				{Method: "GET", Path: "/g", Tags: []string{"@dogs"}, Resps: []Resp{{Code: "200", Body: Body{Kind: "any"}}}},
+				{Method: "POST", Path: "/g", Resps: []Resp{{Code: "201", Body: Body{Kind: "any"}}}}}},
+			{Path: "/g2/{id}", Tags: []string{"@dogs", "@cats"}, Methods: []*HTTP{
+				{Method: "DELETE", Path: "/g2/{id}", Ann: "drop", Resps: []Resp{{Code: "204", Body: Body{Kind: "empty"}}}}}},
 		},
 		Descs: []string{"gets", "line one\n  line two"},
 		Anns:  []string{"get  it"},
@@ -150,6 +158,22 @@ func (d *Doc) Closed() bool {
 			for _, r := range x.Resps {
 				chkS(r.Headers)
 				chkB(r.Body)
+			}
+		case *Group:
+			for _, t := range x.Tags {
+				if !decl["tag"+t] {
+					ok = false
+				}
+			}
+			for _, m := range x.Methods {
+				for _, t := range m.Tags {
+					if !decl["tag"+t] {
+						ok = false
+					}
+				}
+				for _, r := range m.Resps {
+					chkB(r.Body)
+				}
 			}
 		case *RPC:
 			for _, m := range x.Methods {
@@ -241,6 +265,13 @@ func (g *genState) rec() {
 			keys = append(keys, "json-rpc-2.0 "+m.Name+" "+r.Path)
 		}
 		g.push(r, 1+len(r.Methods), keys, g.rec)
+	}
+	for _, gr := range p.Groups {
+		keys := []string{"url:" + gr.Path}
+		for _, m := range gr.Methods {
+			keys = append(keys, "http "+m.Method+" "+m.Path)
+		}
+		g.push(gr, 1, keys, g.rec)
 	}
 	for _, path := range p.Paths {
 		for _, m := range p.Methods {
